@@ -1,0 +1,9 @@
+//go:build verif
+
+package providers
+
+import "net/http"
+
+// VerifSetHTTPTransport replaces the transport of the package-level client
+// used for all calls to the identity provider. Simulation builds only.
+func VerifSetHTTPTransport(rt http.RoundTripper) { httpClient.Transport = rt }
